@@ -78,6 +78,7 @@ type gen struct {
 	callResults map[string][]T
 	escaped map[*ssa.Alloc]bool
 	nfa int
+	uncontracted []string
 	srcOrd map[ssa.Instruction]int
 	faTag map[string]int
 	addrRoot map[string]*ssa.Alloc
